@@ -11,7 +11,23 @@ import (
 )
 
 var nameShapes = []string{"lower", "camelCase", "snake_case", "kebab-case", "X-Header-Uuid", "v2", "2fa", "id", "ids", "userId", "user_ids", "a.b", "type", "func", "Upper", "with space", "émile", "x_"}
-var textShapes = []string{"", "one line", "multi\nline\ntext", "has */ comment end", "has \"quotes\"", "back\\slash", "tick ` tick", "trailing newline\n", "// slashes", "tab\tseparated", "percent %d %s"}
+var textShapes = []string{"", "one line", "multi\nline\ntext", "has */ comment end", "has \"quotes\"", "back\\slash", "tick ` tick", "trailing newline\n", "// slashes", "tab\tseparated", "percent %d %s",
+	"+build ignore", "first\n+build ignore\nlast", "go:build ignore", "first\n\n+build linux\n\nlast"}
+
+// longText: a line of more than 100 bytes of words in several scripts (multi-byte characters around every
+// byte offset a generator might wrap or cut at).
+func longText(rng *rand.Rand) string {
+	words := []string{"Российская", "охрана", "Århus", "voilà", "mąka", "Škoda", "你好世界", "naïve", "non\u00a0breaking", "x", "of", "the", "żółć", "Ελληνικά", "日本語のテキスト", "emoji😀face", "a"}
+	var b strings.Builder
+	n := 110 + rng.Intn(200)
+	for b.Len() < n {
+		if b.Len() > 0 {
+			b.WriteByte(' ')
+		}
+		b.WriteString(words[rng.Intn(len(words))])
+	}
+	return b.String()
+}
 
 // c01ExtraSpecs: name-shape and free-text-shape axes and a few compositions.
 func c01ExtraSpecs(c *core.Check, rng *rand.Rand) ([]*aspec.ASpec, []string) {
@@ -69,7 +85,12 @@ func c01ExtraSpecs(c *core.Check, rng *rand.Rand) ([]*aspec.ASpec, []string) {
 			add(fmt.Sprintf("name:%s@%s", n, site), a)
 		}
 	}
-	for _, tx := range textShapes {
+	shapes := append([]string{}, textShapes...)
+	for i := 0; i < 6; i++ {
+		shapes = append(shapes, longText(rng))
+	}
+	shapes = append(shapes, longText(rng)+"\n"+longText(rng))
+	for _, tx := range shapes {
 		for _, site := range []string{"info", "summary", "opDescription", "schema", "property", "param", "response", "componentResponse", "title"} {
 			a, op := mk()
 			switch site {
